@@ -220,6 +220,89 @@ class HvLane(Logic):
         m = self.wire('m', a.getWidth())
         HvStage(self, 'st', a, m, registered)
         Buf(self, 'out', m, r)
+
+
+class HvAccumulator(Logic):
+    """feedback through a register: acc <= acc + a (optionally with enable)"""
+    def __init__(self, parent, name, a, q, en=None):
+        super().__init__(parent, name)
+        a = self.addIn('a', a)
+        q = self.addOut('q', q)
+        s = self.wire('s', q.getWidth())
+        Add(self, 'add', a, q, s)
+        if en is None:
+            Reg(self, 'reg', s, q)
+        else:
+            en = self.addIn('en', en)
+            Reg(self, 'reg', s, q, enable=en)
+
+
+class HvLongEdge(Logic):
+    """a forward edge that spans several columns, plus fan-out of the input"""
+    def __init__(self, parent, name, a, r, stages):
+        super().__init__(parent, name)
+        a = self.addIn('a', a)
+        r = self.addOut('r', r)
+        x = a
+        for i in range(stages):
+            y = self.wire('y%d' % i, a.getWidth())
+            Not(self, 'n%d' % i, x, y)
+            x = y
+        And2(self, 'join', x, a, r)
+
+
+class HvTwoPins(Logic):
+    """one wire feeding two pins of the same instance, and two outputs"""
+    def __init__(self, parent, name, a, b, r, s):
+        super().__init__(parent, name)
+        a = self.addIn('a', a)
+        b = self.addIn('b', b)
+        r = self.addOut('r', r)
+        s = self.addOut('s', s)
+        t = self.wire('t', a.getWidth())
+        u = self.wire('u', a.getWidth())
+        Add(self, 'dbl', a, a, t)
+        Max2(self, 'same', t, t, u)            # a generic box with one wire on both input pins
+        Mux2(self, 'mx', b, t, u, r)
+        Sub(self, 'sb', t, a, s)
+
+
+class HvPipeFeedback(Logic):
+    """two-stage pipeline whose second stage feeds the first (plain registers without enable)"""
+    def __init__(self, parent, name, a, q):
+        super().__init__(parent, name)
+        a = self.addIn('a', a)
+        q = self.addOut('q', q)
+        x = self.wire('x', a.getWidth())
+        m = self.wire('m', a.getWidth())
+        Xor2(self, 'mix', a, q, x)
+        Reg(self, 'r0', x, m)
+        Reg(self, 'r1', m, q)
+
+
+class HvTwoFeedback(Logic):
+    """two different wires that both run backwards from one instance (built last) to one reader (built first)"""
+    def __init__(self, parent, name, a, q):
+        super().__init__(parent, name)
+        a = self.addIn('a', a)
+        q = self.addOut('q', q)
+        u = self.wire('u')
+        v = self.wire('v')
+        w = self.wire('w')
+        Add(self, 'last', q, a, u, co=v)     # built first: the layout starts from it, so both u and v become backward edges
+        And2(self, 'first', u, v, w)
+        Reg(self, 'reg', w, q)
+
+
+class HvInnerName(Logic):
+    """an internal wire that carries the same short name as the outer wire attached to a port"""
+    def __init__(self, parent, name, t, r):
+        super().__init__(parent, name)
+        t = self.addIn('t', t)
+        r = self.addOut('r', r)
+        inner = self.wire('t', t.getWidth())
+        Not(self, 'inv', t, inner)
+        Buf(self, 'out', inner, r)
 '''
 
 
